@@ -116,6 +116,11 @@ pub const VALUES: &[&str] = &[
     "zzmixed",
     "zzmixedreal",
     "zzwide",
+    // blanks that are not ASCII (one, two and three bytes long) in front of something else
+    "\"\u{a0}z\"",
+    "\"ff\u{3000}zz\"",
+    "\"\u{2028}1\u{85}g\"",
+    "\"\u{feff} 12\"",
 ];
 
 /// prelude evaluated on every party: the values that have no literal
